@@ -451,7 +451,31 @@ macro_rules! levels {
     };
 }
 
+/// Stack built with type erasure (H3) between the layers: one type whatever the depth.
+fn build_erased<I>(it: I, layers: &[Layer], taps: bool, ctx: &Ctx, cwd: &str) -> Result<BoxIt, String>
+where
+    I: FileIterator + 'static,
+    I::Entry: Describe + 'static,
+    I::Residue: 'static,
+{
+    let mut it = verif::erase(it);
+    if taps {
+        it = verif::erase(do_tap(it, 0, ctx));
+    }
+    for (idx, layer) in layers.iter().enumerate() {
+        it = match layer {
+            Layer::Not(form) => verif::erase(apply_not(it, form, &ctx.root_text)?),
+            Layer::Fe(table) => verif::erase(it.filter_entry(fe_closure(table, idx, ctx, cwd))),
+        };
+        if taps {
+            it = verif::erase(do_tap(it, idx + 1, ctx));
+        }
+    }
+    Ok(finish(it, ctx))
+}
+
 pub const MAX_LAYERS: usize = 5;
+pub const MAX_LAYERS_ERASED: usize = 12;
 levels!(no_tap; p5 => p4, p4 => p3, p3 => p2, p2 => p1, p1 => p0; p0);
 levels!(do_tap; t5 => t4, t4 => t3, t3 => t2, t2 => t1, t1 => t0; t0);
 
@@ -595,7 +619,7 @@ pub fn build_walker(
         root_text: Rc::new(world.root_text.clone()),
         mutator: mutator.clone(),
     };
-    if w.layers.len() > MAX_LAYERS {
+    if w.layers.len() > if w.erased { MAX_LAYERS_ERASED } else { MAX_LAYERS } {
         return Err("too many layers".to_string());
     }
     install_order(w, &sc.cwd, &world.root_text);
@@ -604,7 +628,10 @@ pub fn build_walker(
     let res = match &w.source {
         Source::Path => {
             let it = base.as_path().walk_with_behavior(beh);
-            if w.taps {
+            if w.erased {
+                build_erased(it, &w.layers, w.taps, &ctx, &sc.cwd)
+            }
+            else if w.taps {
                 t5(it, &w.layers, 0, &ctx, &sc.cwd)
             }
             else {
@@ -620,7 +647,10 @@ pub fn build_walker(
             let text = glob_text(expr, *rooted, &world.root_text);
             let glob = Glob::new(&text).map_err(|e| format!("glob {:?}: {}", text, e))?;
             let it = glob.walk_with_behavior(base, beh);
-            if w.taps {
+            if w.erased {
+                build_erased(it, &w.layers, w.taps, &ctx, &sc.cwd)
+            }
+            else if w.taps {
                 t5(it, &w.layers, 0, &ctx, &sc.cwd)
             }
             else {
